@@ -15,6 +15,7 @@ mod w_c18;
 mod w_c19;
 mod w_c20;
 mod w_c20x;
+mod w_traits;
 mod vecprog;
 mod w_vec;
 mod w_c16;
@@ -126,6 +127,10 @@ fn main() {
         }
         "c20" => {
             w_c20::run(&args, &mut rep);
+            true
+        }
+        "traitsurf" => {
+            w_traits::run(&args, &mut rep);
             true
         }
         "c20cross" => {
